@@ -185,7 +185,7 @@ func (BridgeEngine) GenConfig(rng *rand.Rand, prop string, tier string) RunConfi
 	}
 	base := map[string]int{
 		"claim": 30, "confirm": 20, "send": 8, "cancel": 3, "incfee": 3, "batch": 5, "callout": 4, "exec": 8,
-		"ext-event": 10, "ext-height": 6, "relay": 6, "churn": 4, "gov": 2, "empty": 4, "jump": 1, "adv": 3, "actor": 2, "rejoin": 1,
+		"ext-event": 10, "ext-height": 6, "relay": 6, "churn": 4, "gov": 2, "empty": 4, "jump": 1, "adv": 3, "actor": 2, "rejoin": 1, "rebond-cycle": 0,
 	}
 	for _, k := range sortedKeys(base) {
 		v := base[k]
@@ -205,12 +205,16 @@ func (BridgeEngine) GenConfig(rng *rand.Rand, prop string, tier string) RunConfi
 	case "C13":
 		rc.Faults = removeStr(rc.Faults, "conflicting-claim")
 		rc.Faults = appendUniq(rc.Faults, "crash-confirms")
+		rc.Weights["rebond-cycle"] = 3
 		rc.Weights["rejoin"] = rc.Weights["rejoin"]*4 + 4
 		rc.Weights["actor"] = rc.Weights["actor"]*2 + 2
 		rc.Weights["churn"] *= 4
 		rc.Weights["jump"] *= 3
 		rc.Faults = appendUniq(rc.Faults, "membership")
+	case "C01":
+		rc.Weights["rebond-cycle"] = 3
 	case "C02":
+		rc.Weights["rebond-cycle"] = 3
 		rc.Weights["churn"] *= 2
 		rc.Knobs["boundary-stakes"] = "1"
 	case "C05", "C06", "C04":
